@@ -89,7 +89,7 @@ def run(tier):
 def miri_slice(ck, srcs, seeds=(0, 1, 2, 3)):
     """Hash-seed control: under Miri's isolation RandomState keys come from -Zmiri-seed, so the process-level
     hash seed becomes an input and a disagreement is exactly replayable."""
-    crate = os.path.join(common.VERIF, "harness/xdrv")
+    crate = common.harness_dir("xdrv")
     tgt = os.path.join(common.WORK, "tgt-miri")
     results = {}
     with tempfile.NamedTemporaryFile("w", suffix=".jsonl", dir=common.WORK, delete=False) as f:
